@@ -172,8 +172,8 @@ public:
         if (!full()) {
             _storage.push_back(etl::move(value));
             // rotate() returns `last` when p is already the new element (insertion at the end): p itself is the position
-            rotate(p, _storage.end() - 1, _storage.end());
-            return make_pair(p, true);
+            etl::rotate(p, _storage.end() - 1, _storage.end());
+            return etl::make_pair(p, true);
         }
 
         return pair<iterator, bool>(nullptr, false);
@@ -460,7 +460,7 @@ template <typename Key, size_t Capacity, typename Comp>
 [[nodiscard]] constexpr auto
 operator==(static_set<Key, Capacity, Comp> const& lhs, static_set<Key, Capacity, Comp> const& rhs) -> bool
 {
-    return lhs.size() == rhs.size() && equal(begin(lhs), end(lhs), begin(rhs));
+    return lhs.size() == rhs.size() && etl::equal(lhs.begin(), lhs.end(), rhs.begin());
 }
 
 /// \brief Compares the contents of two sets.
@@ -485,7 +485,7 @@ template <typename Key, size_t Capacity, typename Comp>
 [[nodiscard]] constexpr auto
 operator<(static_set<Key, Capacity, Comp> const& lhs, static_set<Key, Capacity, Comp> const& rhs) -> bool
 {
-    return lexicographical_compare(begin(lhs), end(lhs), begin(rhs), end(rhs));
+    return etl::lexicographical_compare(lhs.begin(), lhs.end(), rhs.begin(), rhs.end());
 }
 
 /// \brief Compares the contents of two sets.
